@@ -485,8 +485,8 @@ fn random_calibrated(run: &mut Run, table: &DurTable, rng: &mut Rng, count: usiz
 
 const FIXED_PLAIN: &[&str] = &[
     "FENCE\nFENCE\nFENCE\n",
-    "PULSE 0 \"a\" flat(duration: 1.0, iq: 1.0)\nPULSE 0 \"a\" flat(duration: 1.0, iq: 1.0)\nPULSE 0 \"a\" flat(duration: 1.0, iq: 1.0)\n",
-    "NONBLOCKING PULSE 0 \"a\" flat(duration: 1.0, iq: 1.0)\nNONBLOCKING PULSE 0 \"b\" w4\nFENCE\nPULSE 0 \"a\" flat(duration: 2.0, iq: 1.0)\nFENCE\nPULSE 0 \"a\" flat(duration: 2.0, iq: 1.0)\n",
+    "PULSE 0 \"a\" flat(duration: 2.0, iq: 1.0)\nPULSE 0 \"a\" flat(duration: 2.0, iq: 1.0)\nPULSE 0 \"a\" flat(duration: 2.0, iq: 1.0)\n",
+    "NONBLOCKING PULSE 0 \"a\" flat(duration: 1.0, iq: 1.0)\nNONBLOCKING PULSE 2 \"c\" w4\nFENCE\nPULSE 0 \"a\" flat(duration: 2.0, iq: 1.0)\nFENCE\nPULSE 0 \"a\" flat(duration: 2.0, iq: 1.0)\n",
     "DELAY 0 \"a\" 0.5\nSET-PHASE 0 \"a\" 0.5\nSHIFT-PHASE 1 \"a\" 0.25\nSWAP-PHASES 0 \"a\" 0 \"b\"\nSET-FREQUENCY 0 \"a\" 1.0\nFENCE\nPULSE 0 \"a\" flat(duration: 2.0, iq: 1.0)\n",
     "RESET\n",
     "PULSE 0 \"a\" flat(duration: 2.0, iq: 1.0)\nMOVE th[0] 1.0\n",
@@ -512,7 +512,7 @@ fn main() {
     }
     let mut run = Run::new(&args.out, HEADER, "scase Z", "zfailing", 250);
     let thorough = args.thorough();
-    exhaustive_abstract(&mut run, if thorough { 4 } else { 3 });
+    exhaustive_abstract(&mut run, if thorough { 3 } else { 2 });
     let exhaustive_cases = run.evaluations;
     for t in FIXED_PLAIN {
         run_plain(&mut run, &table, &format!("{QHEADER}{t}"));
@@ -521,12 +521,12 @@ fn main() {
         run_calibrated(&mut run, &table, &format!("{QHEADER}{CALS}{t}"));
     }
     let mut rng = Rng::new(args.seed ^ 0x25);
-    let (na, np, nc) = if thorough { (8000, 8000, 6000) } else { (800, 1200, 900) };
+    let (na, np, nc) = if thorough { (6000, 6000, 5000) } else { (700, 900, 800) };
     abstract_cases(&mut run, &mut rng, na);
     random_plain(&mut run, &table, &mut rng, np);
     random_calibrated(&mut run, &table, &mut rng, nc);
     run.finish(
-        "exhaustive: every block up to length 3 (thorough 4) over 6 RF summaries on 2 frames x durations {0, 1, 2} s, \
+        "exhaustive: every block up to length 2 (thorough 3) over 6 RF summaries on 2 frames x durations {0, 1, 2} s, \
          scheduled through the generic as_schedule with a table-driven handler; random abstract blocks (3 frames, \
          unscheduled and classical instructions, unknown durations); random and fixed single-block Quil-T programs \
          through as_schedule_seconds with the DefaultHandler (pulses / captures with flat, erf_square, gaussian and \
